@@ -1240,6 +1240,68 @@ def _expr_has_name(node: ast.AST) -> bool:
     return any(_expr_has_name(child) for child in ast.iter_child_nodes(node))
 
 
+def _names_bound_in_block(lines: List[str]) -> Set[str]:
+    """Names that are (re)bound or mutated anywhere inside ``lines`` (syntactic scan)."""
+
+    import textwrap
+
+    try:
+        tree = ast.parse(textwrap.dedent("\n".join(lines)))
+    except (SyntaxError, ValueError, RecursionError):
+        return set()
+
+    names: Set[str] = set()
+
+    def add_target(target: ast.AST) -> None:
+        if isinstance(target, ast.Name):
+            names.add(target.id)
+        elif isinstance(target, (ast.Tuple, ast.List)):
+            for elt in target.elts:
+                add_target(elt)
+        elif isinstance(target, ast.Starred):
+            add_target(target.value)
+        elif isinstance(target, (ast.Subscript, ast.Attribute)):
+            add_target(target.value)
+
+    for node in ast.walk(tree):
+        if isinstance(node, ast.Assign):
+            for target in node.targets:
+                add_target(target)
+        elif isinstance(node, (ast.AugAssign, ast.AnnAssign)):
+            add_target(node.target)
+        elif isinstance(node, ast.For):
+            add_target(node.target)
+        elif isinstance(node, ast.Global):
+            names.update(node.names)
+        elif (
+            isinstance(node, ast.Call)
+            and isinstance(node.func, ast.Attribute)
+            and isinstance(node.func.value, ast.Name)
+            and node.func.attr in {"append", "remove"}
+        ):
+            names.add(node.func.value.id)
+    return names
+
+
+def _forget_constants(ctx: Dict[str, object], names: Set[str]) -> None:
+    """Stop treating ``names`` as transpile-time constants in ``ctx``.
+
+    The constant environment is flow-insensitive, so a value is only known at
+    transpile time while no branch, loop body or helper can have changed it.
+    """
+
+    vars_env = ctx.get("vars", {})
+    list_info = ctx.get("list_info", {})
+    for name in names:
+        if name.startswith("_"):
+            continue
+        if name in vars_env and not isinstance(vars_env[name], _ExprStr):
+            vars_env[name] = _ExprStr(name)
+        info = list_info.get(name) if isinstance(list_info, dict) else None
+        if isinstance(info, dict) and info.get("length") is not None:
+            info["length"] = None
+
+
 def _extract_call_argument(
     args_src: str,
     *,
@@ -1637,6 +1699,10 @@ def _parse_function(
     child_ctx["functions"] = functions_map
     if "tmp_counter" in ctx:
         child_ctx["tmp_counter"] = ctx["tmp_counter"]
+
+    # A helper can run at any time: nothing the sketch assigns is a constant inside it.
+    child_ctx["list_info"] = {k: dict(v) for k, v in ctx.get("list_info", {}).items()}
+    _forget_constants(child_ctx, set(child_ctx["vars"].keys()))
 
     fn_meta: Dict[str, object] = {"return_types": [], "has_void": False}
     child_ctx["current_function"] = fn_meta
@@ -2667,6 +2733,8 @@ def _parse_simple_lines(
                     else_entry = (else_ctx, else_body)
                     break
                 break
+            _forget_constants(ctx, _names_bound_in_block(snippet[i:j]))
+
             promoted_names = _promote_branch_decls(
                 branch_entries,
                 else_entry,
@@ -2781,6 +2849,8 @@ def _parse_simple_lines(
                     continue
                 break
 
+            _forget_constants(ctx, _names_bound_in_block(snippet[i:j]))
+
             promoted_names = _promote_branch_decls(
                 branch_entries,
                 None,
@@ -2812,8 +2882,11 @@ def _parse_simple_lines(
 
         m = RE_WHILE.match(line)
         if m:
-            cond_expr = _to_c_expr(m.group(1), vars, ctx)
             block, next_idx = _collect_block(snippet, i)
+            # Whatever the body assigns is unknown in the condition, in the body
+            # (second and later iterations) and after the loop.
+            _forget_constants(ctx, _names_bound_in_block(block))
+            cond_expr = _to_c_expr(m.group(1), vars, ctx)
             child_ctx: Dict[str, object] = dict(ctx)
             child_ctx["vars"] = dict(vars)
             child_ctx["var_types"] = dict(ctx.get("var_types", {}))
@@ -2894,6 +2967,7 @@ def _parse_simple_lines(
                 raise ValueError("for-range loops require a single range(count) argument")
             count = _resolve_numeric_arg(count_arg, 0)
             block, next_idx = _collect_block(snippet, i)
+            _forget_constants(ctx, _names_bound_in_block(block))
             child_ctx = dict(ctx)
             child_ctx["vars"] = dict(vars)
             child_ctx["var_types"] = dict(ctx.get("var_types", {}))
@@ -4211,11 +4285,6 @@ def _parse_simple_lines(
                         info = list_info.setdefault(owner_name, {})
                         info.setdefault("elem", _list_element_type(owner_type))
                         length = info.get("length")
-                        if length is not None:
-                            if expr_node.func.attr == "append":
-                                info["length"] = length + 1
-                            elif length > 0:
-                                info["length"] = length - 1
                         current = vars.get(owner_name)
                         arg_value: Optional[object] = None
                         if expr_node.args:
@@ -4225,16 +4294,20 @@ def _parse_simple_lines(
                                 arg_value = _eval_const(arg_src, vars)
                             except Exception:
                                 arg_value = None
-                        if isinstance(current, list):
+                        if isinstance(current, list) and arg_value is not None:
+                            # Mirror the mutation only while both the list and the
+                            # element are known at transpile time.
                             if expr_node.func.attr == "append":
                                 current.append(arg_value)
-                            else:
-                                if arg_value is not None and arg_value in current:
-                                    current.remove(arg_value)
-                                elif arg_value is None and current:
-                                    current.pop(0)
+                            elif arg_value in current:
+                                current.remove(arg_value)
+                            info["length"] = len(current)
                         else:
                             vars[owner_name] = _ExprStr(owner_name)
+                            if length is not None and expr_node.func.attr == "append":
+                                info["length"] = length + 1
+                            else:
+                                info["length"] = None
                 if _expr_has_name(expr_node):
                     body.append(ExprStmt(expr=expr_c))
                 else:
@@ -4333,6 +4406,8 @@ def _parse_program(src: str) -> Program:
         # controls
         if _indent_of(raw) == 0 and RE_WHILE_TRUE.match(text):
             block, i = _collect_block(lines, i)
+            # The body runs once per loop() pass: what it assigns is not constant.
+            _forget_constants(ctx, _names_bound_in_block(block))
             loop_body.extend(
                 _parse_simple_lines(
                     block,
